@@ -1127,7 +1127,63 @@ def _trn_val_updates_model():
     Solver.validation_step = validation_step
 
 
+def _ck_weights_only():
+    from torchphysics.utils.callbacks import TrainerStateCheckpoint
+    old = TrainerStateCheckpoint.__init__
+
+    def init(self, path, name, check_interval=200, weights_only=False):
+        old(self, path, name, check_interval=check_interval, weights_only=True)         # optimizer / scheduler state dropped
+    TrainerStateCheckpoint.__init__ = init
+
+
+def _ck_final_at_start():
+    import torch
+    from torchphysics.utils.callbacks import WeightSaveCallback
+
+    def on_train_batch_start(self, trainer, pl_module, batch, batch_idx, dataloader_idx=0):
+        if self.save_final_model:
+            torch.save(self.model.state_dict(), self.path + "/" + self.name + "_final.pt")      # written before the last update
+    WeightSaveCallback.on_train_batch_start = on_train_batch_start
+    WeightSaveCallback.on_train_end = lambda self, trainer, pl_module: None
+
+
+def _ck_minloss_stale():
+    import torch, copy
+    from torchphysics.utils.callbacks import WeightSaveCallback
+    old_start = WeightSaveCallback.on_train_start
+
+    def on_train_start(self, trainer, pl_module):
+        old_start(self, trainer, pl_module)
+        self._stale = copy.deepcopy(self.model.state_dict())
+
+    def on_train_batch_start(self, trainer, pl_module, batch, batch_idx, dataloader_idx=0):
+        if (self.check_interval > 0 and batch_idx > 0) and ((batch_idx - 1) % self.check_interval == 0):
+            if trainer.logged_metrics["train/loss"] < self.current_loss:
+                self.current_loss = trainer.logged_metrics["train/loss"]
+                torch.save(self._stale, self.path + "/" + self.name + "_min_loss.pt")          # a stale copy
+    WeightSaveCallback.on_train_start = on_train_start
+    WeightSaveCallback.on_train_batch_start = on_train_batch_start
+
+
+def _ck_model_only():
+    from torchphysics.utils.callbacks import TrainerStateCheckpoint
+    import torch
+
+    def on_train_batch_end(self, trainer, pl_module, outputs, batch, batch_idx, dataloader_idx=0):
+        if batch_idx % self.check_interval == 0:
+            trainer.save_checkpoint(self.path + "/" + self.name + ".ckpt", weights_only=self.weights_only)
+            ck = torch.load(self.path + "/" + self.name + ".ckpt", weights_only=False)
+            for st in ck.get("optimizer_states", []):
+                for k in st.get("state", {}):
+                    if "momentum_buffer" in st["state"][k] and st["state"][k]["momentum_buffer"] is not None:
+                        st["state"][k]["momentum_buffer"] = st["state"][k]["momentum_buffer"] * 0       # buffers reset
+            torch.save(ck, self.path + "/" + self.name + ".ckpt")
+    TrainerStateCheckpoint.on_train_batch_end = on_train_batch_end
+
+
 REGISTRY = {
+    "ck_weights_only": _ck_weights_only, "ck_final_before_last_update": _ck_final_at_start, "ck_minloss_stale": _ck_minloss_stale,
+    "ck_momentum_reset": _ck_model_only,
     "trn_no_weight": _trn_no_weight, "trn_iteration_halved": _trn_iter_const, "trn_gradreverse_off": _trn_gradreverse_off,
     "trn_param_unregistered": _trn_param_unregistered, "trn_sched_every_step": _trn_sched_every_step,
     "trn_val_updates_model": _trn_val_updates_model,
@@ -1169,6 +1225,7 @@ REGISTRY = {
     "dl_target_perm": _dl_target_perm, "dl_len_floor": _dl_len_floor, "dl_agg_global_mean": _dl_agg_sum,
 }
 BY_PROPERTY = {
+    "C19": ["ck_weights_only", "ck_final_before_last_update", "ck_minloss_stale", "ck_momentum_reset"],
     "C07": ["trn_no_weight", "trn_iteration_halved", "trn_gradreverse_off", "trn_param_unregistered", "trn_sched_every_step", "trn_val_updates_model"],
     "C04": ["cond_sqerr_mean", "cond_data_rows_reversed", "cond_periodic_shared_sides", "cond_model_positional"],
     "C14": ["cond_inplace_dict", "cond_periodic_shared_sides"],
